@@ -899,12 +899,95 @@ func c03FragGraph(r *Rng) string {
 	return b.String()
 }
 
+// c03FragCheck: a request whose fragments spread each other at random (all on Query, spreads directly or under
+// an inline fragment), parsed — which validates it — with the fragments the validation reports as spreading
+// themselves compared with the model of the cycle check on the same graph.
+func c03FragCheck(o *Out, r *Rng) {
+	n := 2 + r.Intn(6)
+	names := make([]string, n)
+	seen := map[string]bool{}
+	for i := range names {
+		for {
+			names[i] = fmt.Sprintf("%c%c", 'A'+byte(r.Intn(26)), 'a'+byte(r.Intn(26)))
+			if !seen[names[i]] {
+				seen[names[i]] = true
+				break
+			}
+		}
+	}
+	edges := map[string][]string{}
+	var b strings.Builder
+	b.WriteString("{ b ..." + Pick(r, names) + " }")
+	for _, nm := range names {
+		b.WriteString(" fragment " + nm + " on Query { b")
+		k := 0
+		switch {
+		case r.Chance(10):
+			edges[nm] = append(edges[nm], nm)
+			b.WriteString(" ..." + nm)
+		case r.Chance(75):
+			k = 1 + r.Intn(3)
+		}
+		for j := 0; j < k; j++ {
+			t := names[r.Intn(n)]
+			edges[nm] = append(edges[nm], t)
+			if r.Chance(30) {
+				b.WriteString(" ... on Query { b ..." + t + " }")
+			} else {
+				b.WriteString(" ..." + t)
+			}
+		}
+		b.WriteString(" }")
+	}
+	root := ggql.NewRoot(nil)
+	if err := root.ParseString("type Query { b: Int }"); err != nil {
+		panic(err)
+	}
+	_, err := root.ParseExecutableString(b.String())
+	var reported []T
+	if err != nil {
+		re := regexp.MustCompile(`fragment (\w+) spreads itself`)
+		for _, m := range re.FindAllStringSubmatch(err.Error(), -1) {
+			reported = append(reported, S(m[1]))
+		}
+		if len(reported) == 0 {
+			o.Count("fragcheck-other-error")
+			return
+		}
+	}
+	sorted := append([]string{}, names...)
+	sort.Strings(sorted)
+	var nt, et []T
+	for _, nm := range sorted {
+		nt = append(nt, S(nm))
+		var ss []T
+		for _, t := range edges[nm] {
+			ss = append(ss, S(t))
+		}
+		et = append(et, N("e", S(nm), LS(ss)))
+	}
+	if len(reported) > 0 {
+		o.Count("fragcheck-cyclic")
+	} else {
+		o.Count("fragcheck-acyclic")
+	}
+	o.Emit(Case{Term: N("c03f", LS(nt), LS(et)), Obs: LS(reported), Meta: map[string]interface{}{"doc": b.String(), "class": "fragcheck"}, Nontrivial: true})
+}
+
 func c03Deep(open, close string, n int) string { return strings.Repeat(open, n) + strings.Repeat(close, n) }
 
 func runC03(o *Out, r *Rng, tier string) {
 	nMal, nEntry := 6000, 1500
 	if tier == "thorough" {
 		nMal, nEntry = 120000, 30000
+	}
+	// the fragment-cycle check against its model (in process: parsing a request returns)
+	nFrag := 400
+	if tier == "thorough" {
+		nFrag = 20000
+	}
+	for i := 0; i < nFrag; i++ {
+		c03FragCheck(o, r.Fork())
 	}
 	var cases []*c03Case
 	tails := []string{"eof", "eof", "eof", "eofLast", "fault"}
